@@ -573,6 +573,22 @@ def schemaCopyLegacy : Val → Comp
        { next := s.next + 1, writes := s.next :: s.writes })
   | _, s => (.error (.unmodelled "copy of a non-Schema"), s)
 
+/-- `d[fname] = v` on a plain dict (an instance's `__dict__`) -/
+def setItemF (fname : String) (v : Val) : Kind → List String → List Val → Option (List String × List Val) :=
+  fun _ ks xs => some (setKV fname v ks xs)
+
+/-- `dict.__setitem__(inst, fname, v)` on a Schema instance (whose first child is its `__dict__`) -/
+def instSetF (fname : String) (v : Val) : Kind → List String → List Val → Option (List String × List Val) :=
+  fun _ ks xs => match ks, xs with
+    | "__dict__" :: ks', x :: xs' => (match setKV fname v ks' xs' with | (a', b') => some ("__dict__" :: a', x :: b'))
+    | _, _ => Option.none
+
+/-- `dict.__delitem__(inst, fname)` on a Schema instance -/
+def instDelF (fname : String) : Kind → List String → List Val → Option (List String × List Val) :=
+  fun _ ks xs => match ks, xs with
+    | "__dict__" :: ks', x :: xs' => (match delKV fname ks' xs' with | (a', b') => some ("__dict__" :: a', x :: b'))
+    | _, _ => Option.none
+
 /-- `inst.field = atom` for a declared field whose type accepts the atom unchanged:
 Schema `__field_setter__` (schema.py:312-340): no_output → `self.__dict__[attname] = v`, drop the item;
 otherwise `dict.__setitem__(self, name, v)`.  DataClass setter (cls.py:259-273): `__dict__[attname] = v`. -/
@@ -580,16 +596,9 @@ def setattrWrites (d : Decl) (fname : String) (v : Val) : Val → List (Nat × (
   | .node i (.inst _) _ (.node a .dict _ _ :: _) =>
       let noOut := d.fields.any (fun f => f.name == fname && f.noOutput)
       if d.kind == .schema then
-        if noOut then
-          [(a, fun _ ks xs => some (setKV fname v ks xs)),
-           (i, fun _ ks xs => match ks, xs with
-                | "__dict__" :: ks', x :: xs' => (match delKV fname ks' xs' with | (a', b') => some ("__dict__" :: a', x :: b'))
-                | _, _ => Option.none)]
-        else
-          [(i, fun _ ks xs => match ks, xs with
-                | "__dict__" :: ks', x :: xs' => (match setKV fname v ks' xs' with | (a', b') => some ("__dict__" :: a', x :: b'))
-                | _, _ => Option.none)]
-      else [(a, fun _ ks xs => some (setKV fname v ks xs))]
+        if noOut then [(a, setItemF fname v), (i, instDelF fname)]
+        else [(i, instSetF fname v)]
+      else [(a, setItemF fname v)]
   | _ => []
 
 /-! ### the world: declarations (with their default objects), allocator, live roots -/
